@@ -865,6 +865,27 @@ func (ef *entryFacts) entry(fn *ssa.Function) state {
 		cur := state{}
 		for i, p := range fn.Params {
 			b, ok := p.Type().Underlying().(*types.Basic)
+			if ok && b.Info()&types.IsString != 0 {
+				// string-valued (closed enumerations): what the caller knows
+				// about the argument's value (equal to / different from constants)
+				f := fact{lo: math.MinInt64, hi: math.MaxInt64}
+				if k, isK := strip(args[i]).(*ssa.Const); isK && k.Value != nil && k.Value.Kind() == constant.String {
+					f.eq = k.Value.ExactString()
+				} else if st, reach := cf.At(site.Block()); reach {
+					g := st.get(term{v: strip(args[i])})
+					f.eq = g.eq
+					for k := range g.ne {
+						if f.ne == nil {
+							f.ne = map[string]bool{}
+						}
+						f.ne[k] = true
+					}
+				} else {
+					f.eq = "\x00unreachable"
+				}
+				cur[term{v: p}] = f
+				continue
+			}
 			if !ok || b.Info()&types.IsInteger == 0 {
 				continue
 			}
@@ -881,6 +902,17 @@ func (ef *entryFacts) entry(fn *ssa.Function) state {
 		}
 		for t, f := range out {
 			g := cur[t]
+			if f.eq == "\x00unreachable" {
+				out[t] = g
+				continue
+			}
+			if g.eq == "\x00unreachable" {
+				continue
+			}
+			if f.eq != "" || g.eq != "" || f.ne != nil || g.ne != nil {
+				out[t] = meetFact(t, f, g)
+				continue
+			}
 			if g.lo < f.lo {
 				f.lo = g.lo
 			}
@@ -902,6 +934,13 @@ func (ef *entryFacts) entry(fn *ssa.Function) state {
 			if !ok {
 				continue
 			}
+			if f.eq != "" || len(f.ne) > 0 {
+				// value facts are inductive only if the recursive call hands on the parameter itself
+				if strip(e.Site.Common().Args[i]) != ssa.Value(p) {
+					delete(out, t)
+				}
+				continue
+			}
 			lo, hi, ok := tmp.bounds(e.Site.Common().Args[i], e.Site.Block())
 			if ok && (lo < f.lo || hi > f.hi) {
 				delete(out, t)
@@ -909,6 +948,28 @@ func (ef *entryFacts) entry(fn *ssa.Function) state {
 		}
 	}
 	for t, f := range out {
+		if f.eq == "\x00unreachable" {
+			delete(out, t)
+			continue
+		}
+		if f.eq != "" || len(f.ne) > 0 {
+			// closed enumeration: all values but one excluded
+			if n := namedOf(t.v.Type()); n != nil && f.eq == "" {
+				if vals, ok := ef.enums[n]; ok {
+					var left []string
+					for _, val := range vals {
+						if !f.ne[val] {
+							left = append(left, val)
+						}
+					}
+					if len(left) == 1 {
+						f.eq = left[0]
+						out[t] = f
+					}
+				}
+			}
+			continue
+		}
 		if f.lo > f.hi || (f.lo == math.MinInt64 && f.hi == math.MaxInt64) {
 			delete(out, t)
 		}
